@@ -265,6 +265,13 @@ public:
 
   void callee(const FunctionDecl *FD, bool &first) {
     kv("fn", qname(FD), first);
+    key("pt", first);
+    OS << "[";
+    for (unsigned i = 0; i < FD->getNumParams(); ++i) {
+      if (i) OS << ",";
+      OS << "\"" << jesc(canonStr(FD->getParamDecl(i)->getType())) << "\"";
+    }
+    OS << "]";
     if (FD->isNoReturn()) kvb("noret", true, first);
     if (auto *MD = dyn_cast<CXXMethodDecl>(FD)) {
       kv("cls", recordName(MD->getParent()), first);
